@@ -150,7 +150,7 @@ UNPROVED += [
     'hash_seed_independence (not expressible in a Lean model; sampled)',
 ]
 UNPROVED = [u for u in UNPROVED if not u.startswith('rename_equivariant_thresholds')]
-REQUIRED_COUNTERS = ['perm', 'rename', 'reverse_sort_rename', 'hashseed', 'modelled', 'symmetric_pair', 'all_perms', 'symmetric_profile']
+REQUIRED_COUNTERS = ['perm', 'rename', 'rename_int', 'mj_partial_heavy', 'reverse_sort_rename', 'hashseed', 'modelled', 'symmetric_pair', 'all_perms', 'symmetric_profile']
 RULE = ('every deterministic evaluator family x generated profiles (2-5 candidates) x 3 permutations of insertion order x 3 bijective '
         'renamings (one reversing string sort order, one to multi-character random names, one permuting the base names) in-process, and a '
         'sample of the cases in subprocesses under PYTHONHASHSEED in {0,1,2,3,random}; small profiles (<= 3 entries quick, <= 4 thorough) under '
@@ -175,7 +175,10 @@ def _names_variants(rng, m):
     rnd = rng.sample(words, m) if m <= len(words) else [f'name{i}' for i in range(m)]
     shuf = [f'cand{i}' for i in range(m)]
     rng.shuffle(shuf)                                                  # a permutation of the base names
-    return [('reverse_sort_rename', rev), ('rename', rnd), ('rename', shuf)]
+    ints = list(range(m))
+    rng.shuffle(ints)                                                  # small ints iterate in VALUE order inside sets / frozensets:
+    #                                                                    an int renaming steers which member a set yields first
+    return [('reverse_sort_rename', rev), ('rename', rnd), ('rename', shuf), ('rename_int', ints), ('rename_int', ints[::-1])]
 
 
 def _distinct_strengths(prof):
@@ -195,7 +198,7 @@ def _distinct_strengths(prof):
 
 def generate(rng, tier):
     F = list(fams().values())
-    per = 12 if tier == 'quick' else 400
+    per = 24 if tier == 'quick' else 400
     hs_budget = 120 if tier == 'quick' else 1500
     for f in F:
         made = 0
@@ -219,6 +222,31 @@ def generate(rng, tier):
             made += 1
             yield {'op': 'invariance', 'family': f.name, 'prof': prof, 'n': n, 'perms': perms,
                    'renamings': [r for _, r in rens], 'hashseeds': HASH_SEEDS if hs else [], '_tags': tags}
+    # directed: majority judgment on PARTIAL ballots with heavy weights (tied medians, different numbers of grades per candidate):
+    # the default tie-break must not depend on which tied candidate a frozenset yields first - renamings and hash seeds vary that
+    for f in F:
+        if f.name.startswith('majority_judgment'):
+            for t in range(100 if tier == 'quick' else 600):
+                m = rng.randint(3, 4)
+                if t % 2:
+                    prof = fam_mod.gen_score_partial_heavy(rng, m)
+                else:
+                    # tied medians, different numbers of grades: w1 x {b: g}, w2 x {b: g, c: g+1}, w3 x {a: g, b: g+2, c: g}
+                    g = rng.choice([0, 1, 2])
+                    a, b, c = rng.sample(range(3), 3)
+                    prof = [[[[b, g]], str(rng.randint(3, 8))], [sorted([[b, g], [c, g + 1]]), str(rng.randint(1, 5))],
+                            [sorted([[a, g], [b, g + 2], [c, g]]), str(rng.randint(3, 8))]]
+                cands = fam_mod.candidates_of('score', prof)
+                rens = _names_variants(rng, max(cands) + 1)
+                if max(cands) + 1 == 3:          # every int naming of three candidates: every iteration order of a tied set
+                    import itertools as _it
+                    rens = rens[:3] + [('rename_int', list(q)) for q in _it.permutations(range(3))]
+                hs = hs_budget > 0 and t % 4 == 0
+                if hs:
+                    hs_budget -= 1
+                yield {'op': 'invariance', 'family': f.name, 'prof': prof, 'n': rng.randint(1, 2),
+                       'perms': [fam_mod.permute(prof, rng) for _ in range(K_PERM)], 'renamings': [r for _, r in rens],
+                       'hashseeds': HASH_SEEDS if hs else [], '_tags': ['perm', 'mj_partial_heavy'] + [tg for tg, _ in rens] + (['hashseed'] if hs else [])}
     # small scope, exhaustively: ALL orders of presentation of profiles with at most 3 (quick) / 4 (thorough) entries
     import itertools
     cap = 3 if tier == 'quick' else 4
